@@ -7,7 +7,7 @@
 (* name gives the name back and the rendered spelling is a valid identifier.*)
 EXTENDS SelRT, Json, IOUtils
 
-CONSTANTS Mode,        \* "names" | "ctx" | "struct" | "input" (token sequences read from IOEnv.INPUTS, Flow B)
+CONSTANTS Mode,        \* "all" | "names" | "ctx" | "struct" | "input" (token sequences read from IOEnv.INPUTS, Flow B)
           MaxLen,      \* names of 1..MaxLen characters
           Kinds        \* spelling kinds tried: subset of {"raw", "bs", "hex", "hex6"}
 
@@ -16,7 +16,7 @@ Chars  == {97, 66, 49, 45, 95, 233, 119808, 169, 128512, 46, 32, 1}
        \* a   B   1   -   _   e'   astral-letter  (c)  emoji   .   sp  control
 Chars2 == {97, 49, 45, 233, 128512, 46}
 
-Names == {<<c>> : c \in Chars \ {45}}
+Names == {<<c>> : c \in Chars}
          \cup (IF MaxLen >= 2 THEN {<<c, d>> : c \in Chars, d \in Chars2} ELSE {})
          \cup (IF MaxLen >= 3 THEN {<<c, d, 49>> : c \in {97, 45, 49}, d \in {45, 49}} ELSE {})
 
@@ -62,7 +62,8 @@ Exotic == {
   <<Pe(<<115, 108, 111, 116, 116, 101, 100>>), Op, Cl(nc), Clo>>, <<Ps(<<108, 97, 110, 103>>), Op, Ar(<<101, 110>>), Clo>>,
   <<Ps(<<100, 105, 114>>), Op, Ar(<<114, 116, 108>>), Clo>>, <<Ps(<<45, 109, 111, 122, 45, 97, 110, 121>>), Op, El(na), Comma, El(nb), Clo>>,
   <<Ps(<<110, 111, 116>>), Op, Cl(nc), Clo, Ps(<<110, 111, 116>>), Op, Cl(nd), Clo>>,
-  <<Ps(<<110, 111, 116>>), Op, El(<<42>>), Clo>>, <<Cl(<<233>>)>>, <<El(<<65>>)>>}
+  <<Ps(<<110, 111, 116>>), Op, El(<<42>>), Clo>>, <<Cl(<<233>>)>>, <<El(<<65>>)>>,
+  <<Id(<<105>>), Id(<<106>>)>>, <<Cl(nc), Cl(nc)>>, <<Cl(nc), Cl(nd)>>, <<Ps(hover), Ps(hover)>>}
 
 (* where an exotic simple selector is put: alone, behind / in front of a compound, in an argument, in a list, in the middle *)
 IsElemLike(p) == p[1].t = "elem"
@@ -85,17 +86,18 @@ Chains == Compounds2 \cup {a \o s \o b : a \in Compounds2, s \in Seps, b \in Com
 ---------------------------------------------------------------------------
 V(id, toks, at, sp, tight) == [id |-> id, den |-> toks, src |-> IF tight = 1 THEN RenderTight(toks) ELSE Render(toks, at, sp), at |-> at, tight |-> tight]
 
+VNames(z)  == UNION {{V("name", t, 1, sp, 0) : sp \in Spellings(n), t \in NameToks(n)} : n \in Names}
+VCtx(z)    == UNION {{V("ctx", t[1], t[2], sp, 0) : sp \in Spellings(n), t \in Ctx(n)} : n \in {n \in Names : Len(n) = 1 \/ n[2] \in {49, 45}}}
+VStruct(z) == {V("exotic", t, 0, <<>>, 0) : t \in UNION {Place(p) : p \in Exotic}}
+              \cup {V("chain", t, 0, <<>>, tg) : t \in Chains, tg \in {0, 1}}
 Vectors(z) ==
-  IF Mode = "names" THEN
-     UNION {{V("name", t, 1, sp, 0) : sp \in Spellings(n), t \in NameToks(n)} : n \in Names}
-  ELSE IF Mode = "ctx" THEN
-     UNION {{V("ctx", t[1], t[2], sp, 0) : sp \in Spellings(n), t \in Ctx(n)} : n \in {n \in Names : Len(n) = 1 \/ n[2] \in {49, 45}}}
-  ELSE IF Mode = "input" THEN
-     LET In == ndJsonDeserialize(IOEnv.INPUTS) IN
-     {V("rnd", In[i].den, In[i].at, In[i].sp, 0) : i \in {i \in 1..Len(In) : In[i].at = 0 \/ SpellingOK(In[i].den[In[i].at].v, In[i].sp)}}
-  ELSE
-     {V("exotic", t, 0, <<>>, 0) : t \in UNION {Place(p) : p \in Exotic}}
-     \cup {V("chain", t, 0, <<>>, tg) : t \in Chains, tg \in {0, 1}}
+  CASE Mode = "names"  -> VNames(z)
+    [] Mode = "ctx"    -> VCtx(z)
+    [] Mode = "struct" -> VStruct(z)
+    [] Mode = "input"  ->
+         LET In == ndJsonDeserialize(IOEnv.INPUTS) IN
+         {V("rnd", In[i].den, In[i].at, In[i].sp, 0) : i \in {i \in 1..Len(In) : In[i].at = 0 \/ SpellingOK(In[i].den[In[i].at].v, In[i].sp)}}
+    [] OTHER           -> VNames(z) \cup VCtx(z) \cup VStruct(z)
 
 VARIABLE vec
 Init == vec \in Vectors(0)
